@@ -51,13 +51,15 @@ const maxStrSet = 256
 
 // strEval folds string-valued SSA values to finite sets of strings.
 type strEval struct {
-	m        *Model
-	synth    map[string]synthBinding // synthetic named parameters introduced for %d etc.
-	holes    int
-	fmtHoles int      // caller-supplied text used as (part of) a Sprintf FORMAT string
-	why      []string // reasons for giving up
-	loadVal  map[*ssa.UnOp][]string
-	busy     map[strKey]bool
+	m          *Model
+	synth      map[string]synthBinding // synthetic named parameters introduced for %d etc.
+	holes      int
+	fmtHoles   int // caller-supplied text used as (part of) a Sprintf FORMAT string
+	xformHoles int // text produced by a function outside the package (strings.*, regexp.*): transformed, not verbatim
+	xformBy    string
+	why        []string // reasons for giving up
+	loadVal    map[*ssa.UnOp][]string
+	busy       map[strKey]bool
 	// liveEdge, when set, restricts evaluation to a cut CFG: a phi edge coming from a
 	// predecessor that is unreachable (or over a removed edge) contributes nothing.
 	liveEdge func(pred, blk *ssa.BasicBlock, fr *frame) bool
@@ -249,7 +251,20 @@ func (e *strEval) evalCall(call *ssa.Call, resIdx int, fr *frame) ([]string, boo
 	if callee.Pkg != nil && callee.Pkg.Pkg.Path() == "fmt" && callee.Name() == "Sprintf" {
 		return e.evalSprintf(call, fr)
 	}
+	if callee.Pkg != nil && callee.Pkg.Pkg.Path() == "strings" && (callee.Name() == "Replace" || callee.Name() == "ReplaceAll") && len(call.Common().Args) >= 3 {
+		// the one documented substitution: the keyspace token (a `$name` placeholder, not SQL text)
+		// is replaced by the name of the CTE; the rest of the caller's text is untouched
+		if oldS, ok := constString(call.Common().Args[1]); ok && strings.HasPrefix(oldS, "$") {
+			if _, ok := constString(call.Common().Args[2]); ok {
+				return e.eval(call.Common().Args[0], fr)
+			}
+		}
+	}
 	if !e.m.inPkg(callee) || len(callee.Blocks) == 0 {
+		e.xformHoles++
+		if callee.Pkg != nil {
+			e.xformBy = callee.Pkg.Pkg.Name() + "." + callee.Name()
+		}
 		return e.hole()
 	}
 	// package-local function: union over its return sites, parameters bound to the actuals
